@@ -61,6 +61,7 @@ def strata(tier):
         for D in dims:
             for N in ns[D]:
                 out.append(dict(id="%s-D%d-N%d" % (v, D, N), v=v, D=D, N=N))
+            out.append(dict(id="%s-D%d-anyN" % (v, D), v=v, D=D, N="any", n_min=6, n_max={1: 200, 2: 36, 3: 14}[D] if tier == "quick" else {1: 400, 2: 64, 3: 20}[D]))
     return out
 
 
